@@ -192,7 +192,7 @@ pub fn real_a2(dep: &impl A, x: u8, y: u8) -> u32 {
     real_value(MethodId::A2, &[x, y])
 }
 
-#[unimock(api=BMock, unmock_with=[_, _, real_b2])]
+#[unimock(api=BMock, unmock_with=[_, _, _, real_b2])]
 pub trait B {
     fn b0(&self, x: u8) -> u32;
     /// default body which calls the required method on self
@@ -205,6 +205,13 @@ pub trait B {
         let nested = self.b0(x);
         ev(Event::Nested(nested));
         default_value(MethodId::B1, &[x])
+    }
+    /// an associated function without receiver: skipped by the macro, but it occupies a slot of `unmock_with`
+    fn version() -> u32
+    where
+        Self: Sized,
+    {
+        3
     }
     /// has both a default body and a real function
     fn b2(&self, x: u8) -> u32 {
